@@ -102,8 +102,12 @@ def worker(args):
             # arguments
             pos = [GOOD() for _ in range(call["npos"])]
             kw = {}
+            # the extra keyword (lands in **kwargs) is sometimes named like the wrapper's generated names
+            extra = rng.choice(["zz_extra", "zz_extra", "ret0", "ret1", "T0", "default0", "self"])
+            if extra in names.values():
+                extra = "zz_extra"
             for k in call["kws"]:
-                kw[{"po": names["po"], "pk": names["pk"], "ko": names["ko"], "extra": "zz_extra"}[k]] = GOOD()
+                kw[{"po": names["po"], "pk": names["pk"], "ko": names["ko"], "extra": extra}[k]] = GOOD()
             if typed == "ill":
                 bad = np.zeros((2, 2), np.float32)
                 # make one argument that lands on an annotated parameter ill-typed
@@ -115,7 +119,7 @@ def worker(args):
                     if (k == "pk" and sig["pk"]) or (k == "ko" and sig["ko"]):
                         targets.append(("kw", {"pk": names["pk"], "ko": names["ko"]}[k]))
                     elif annot_var and sig["vk"]:
-                        targets.append(("kw", {"po": names["po"], "pk": names["pk"], "ko": names["ko"], "extra": "zz_extra"}[k]))
+                        targets.append(("kw", {"po": names["po"], "pk": names["pk"], "ko": names["ko"], "extra": extra}[k]))
                 if annot_var and sig["va"]:
                     for i in range(npospar, call["npos"]):
                         targets.append(("pos", i))
